@@ -4,6 +4,182 @@
 import XC.Proofs.C23
 namespace XC.C23
 
+/-! ### readASN1 accepts exactly DER -/
+
+
+/-- **readASN1 accepts exactly DER TLVs with a low-number tag.**  `readASN1 s` returns the element `e`
+    iff `s` is `tag ‖ derLen |body| ‖ body ‖ rest` with `derLen` the unique minimal length octets,
+    the tag is not in high-tag-number form, and header+length fits in a uint32. -/
+theorem readASN1_iff_der (s : Bytes) (e : Elem) :
+    readASN1 s = some e ↔
+      ((e.tag &&& 0x1f == 0x1f) = false ∧ e.body.length ≤ 0xfffffff9 ∧
+       e.hdr = 1 + (derLen e.body.length).length ∧
+       e.whole = e.tag :: (derLen e.body.length ++ e.body) ∧ s = e.whole ++ e.rest) := by
+  constructor
+  · exact readASN1_sound s e
+  · rintro ⟨ht, hn, hh, hw, hs⟩
+    have := readASN1_der e.tag e.body e.rest ht hn
+    rw [hs, hw]
+    simp only [List.cons_append, List.append_assoc] at this ⊢
+    rw [this]
+    obtain ⟨tag, hdr, whole, rest⟩ := e
+    simp only [Elem.body] at hh hw ⊢
+    simp only [Option.some.injEq, Elem.mk.injEq, true_and, and_true]
+    exact ⟨hh.symm, hw.symm⟩
+
+/-- ReadAnyASN1 in terms of plain byte strings -/
+theorem readAnyASN1_iff (s : Bytes) (t : UInt8) (body rest : Bytes) :
+    readAnyASN1 s = some (t, body, rest) ↔
+      ((t &&& 0x1f == 0x1f) = false ∧ body.length ≤ 0xfffffff9 ∧ s = t :: (derLen body.length ++ body ++ rest)) := by
+  constructor
+  · intro h
+    unfold readAnyASN1 at h
+    cases hr : readASN1 s with
+    | none => simp [hr] at h
+    | some e =>
+      simp only [hr, Option.map_some, Option.some.injEq, Prod.mk.injEq] at h
+      obtain ⟨h1, h2, h3⟩ := h
+      obtain ⟨a, b, _, d, f⟩ := readASN1_sound s e hr
+      subst h1 h2 h3
+      exact ⟨a, b, by rw [f, d]; simp⟩
+  · rintro ⟨ht, hn, hs⟩
+    have := readASN1_der t body rest ht hn
+    subst hs
+    unfold readAnyASN1
+    rw [this]
+    simp only [Option.map_some, Elem.body, Option.some.injEq, Prod.mk.injEq, true_and, and_true]
+    have : 1 + (derLen body.length).length = (t :: derLen body.length).length := by
+      simp only [List.length_cons]; omega
+    rw [this, ← List.cons_append, List.drop_left]
+
+/-- the length octets are determined by the body length: two accepted encodings of the same tag and body
+    are byte-for-byte equal (canonicity) -/
+theorem readAnyASN1_canonical (s s' : Bytes) (t : UInt8) (body : Bytes)
+    (h : readAnyASN1 s = some (t, body, [])) (h' : readAnyASN1 s' = some (t, body, [])) : s = s' := by
+  rw [readAnyASN1_iff] at h h'
+  rw [h.2.2, h'.2.2]
+
+
+/-! ### INTEGER -/
+
+/-- **checkASN1Integer = DER minimality**: the contents are accepted iff they are a shortest non-empty
+    two's-complement representation of their value. -/
+theorem checkASN1Integer_iff_shortest (bs : Bytes) :
+    checkASN1Integer bs = true ↔
+      bs ≠ [] ∧ ∀ bs' : Bytes, bs' ≠ [] → twosVal bs' = twosVal bs → bs.length ≤ bs'.length := by
+  match bs with
+  | [] => simp [checkASN1Integer]
+  | [a] =>
+    simp only [checkASN1Integer, ne_eq, List.cons_ne_self, not_false_eq_true, List.length_cons,
+      List.length_nil, true_and, true_iff, reduceCtorEq]
+    intro bs' hne _
+    cases bs' with
+    | nil => exact absurd rfl hne
+    | cons c r => simp
+  | b0 :: b1 :: rest =>
+    constructor
+    · intro h
+      refine ⟨by simp, ?_⟩
+      intro bs' hne hv
+      cases bs' with
+      | nil => exact absurd rfl hne
+      | cons c0 rest' =>
+        by_cases hlen : rest'.length ≤ rest.length
+        · exfalso
+          have hA := twosVal_range c0 rest'
+          have hB := twosVal_minimal_big b0 b1 rest h
+          rw [hv] at hA
+          have hmono : (256 ^ rest'.length : Nat) ≤ 256 ^ rest.length := Nat.pow_le_pow_right (by decide) hlen
+          generalize twosVal (b0 :: b1 :: rest) = v at *
+          generalize (256 ^ rest'.length : Nat) = P' at *
+          generalize (256 ^ rest.length : Nat) = P at *
+          omega
+        · simp only [List.length_cons]; omega
+    · intro ⟨_, h⟩
+      by_cases hc : checkASN1Integer (b0 :: b1 :: rest) = true
+      · exact hc
+      · have hC := twosVal_redundant b0 b1 rest (by simpa using hc)
+        have := h (b1 :: rest) (by simp) hC.symm
+        simp only [List.length_cons] at this
+        omega
+
+/-- the accepted encoding of a value is unique -/
+theorem checkASN1Integer_unique (a b : Bytes) (ha : checkASN1Integer a = true) (hb : checkASN1Integer b = true)
+    (hv : twosVal a = twosVal b) : a.length = b.length := by
+  obtain ⟨ha0, ha1⟩ := (checkASN1Integer_iff_shortest a).mp ha
+  obtain ⟨hb0, hb1⟩ := (checkASN1Integer_iff_shortest b).mp hb
+  have := ha1 b hb0 hv.symm
+  have := hb1 a ha0 hv
+  omega
+
+/-- `asn1Signed`'s length limit is exactly the int64 range (for minimal contents) -/
+theorem int64_range_iff (bs : Bytes) (h : checkASN1Integer bs = true) :
+    bs.length ≤ 8 ↔ (-(2 : Int) ^ 63 ≤ twosVal bs ∧ twosVal bs < (2 : Int) ^ 63) := by
+  match bs, h with
+  | [a], _ =>
+    have := twosVal_range a []
+    simp only [List.length_nil, Nat.pow_zero] at this
+    simp only [List.length_cons, List.length_nil]
+    constructor
+    · intro _; omega
+    · intro _; omega
+  | b0 :: b1 :: rest, h =>
+    have hA := twosVal_range b0 (b1 :: rest)
+    have hB := twosVal_minimal_big b0 b1 rest h
+    rw [List.length_cons, cast_pow_succ] at hA
+    simp only [List.length_cons]
+    generalize twosVal (b0 :: b1 :: rest) = v at *
+    constructor
+    · intro hl
+      have hmono : (256 ^ rest.length : Nat) ≤ 256 ^ 6 := Nat.pow_le_pow_right (by decide) (by omega)
+      generalize (256 ^ rest.length : Nat) = P at *
+      omega
+    · intro hr
+      by_cases hl : rest.length ≤ 6
+      · omega
+      · exfalso
+        have hmono : (256 ^ 7 : Nat) ≤ 256 ^ rest.length := Nat.pow_le_pow_right (by decide) (by omega)
+        generalize (256 ^ rest.length : Nat) = P at *
+        omega
+
+
+
+/-- ReadASN1Integer(*int64) accepts exactly: an INTEGER element whose contents are the shortest
+    two's-complement form of a value in the int64 range, and returns that value -/
+theorem readInt64_iff (s r : Bytes) (v : Int) :
+    readSigned 64 s = some (v, r) ↔
+      ∃ body, readASN1Tag 2 s = some (body, r) ∧ checkASN1Integer body = true ∧ twosVal body = v ∧
+        -(2 : Int) ^ 63 ≤ v ∧ v < (2 : Int) ^ 63 := by
+  unfold readSigned readInt64Tag readIntBody asn1Signed
+  constructor
+  · intro h
+    cases hr : readASN1Tag 2 s with
+    | none => simp [hr] at h
+    | some p =>
+      obtain ⟨b, r'⟩ := p
+      simp only [hr] at h
+      by_cases hc : checkASN1Integer b = true
+      · simp only [hc, if_true] at h
+        by_cases hl : b.length > 8
+        · simp [hl] at h
+        · simp only [hl, if_false, Option.map_some] at h
+          have hrange := (int64_range_iff b hc).mp (by omega)
+          split at h
+          · simp at h
+          · simp only [Option.some.injEq, Prod.mk.injEq] at h
+            obtain ⟨h1, h2⟩ := h
+            subst h1 h2
+            exact ⟨b, rfl, hc, rfl, hrange.1, hrange.2⟩
+      · simp [hc] at h
+  · rintro ⟨body, hr, hc, hv, h1, h2⟩
+    have hl := (int64_range_iff body hc).mpr (by rw [hv]; exact ⟨h1, h2⟩)
+    simp only [hr, hc, if_true, show ¬ body.length > 8 by omega, if_false, Option.map_some, hv]
+    have : ¬ ((decide (v < -(2 : Int) ^ (64 - 1)) || decide (v ≥ (2 : Int) ^ (64 - 1))) = true) := by
+      simp only [Bool.or_eq_true, decide_eq_true_eq, not_or]
+      constructor <;> omega
+    rw [if_neg this]
+
+
 /-! ### builder → reader round trips -/
 
 theorem addASN1_read (t : UInt8) (body out rest : Bytes) (h : addASN1 t body = some out)
